@@ -147,6 +147,8 @@ pub fn c08(out: &mut Out, rng: &mut Rng, tier: &Tier) {
     c08_type::<Kmer5>(out, seed, tier, &mut counter);
     c08_type::<Kmer6>(out, seed, tier, &mut counter);
     c08_type::<Kmer8>(out, seed, tier, &mut counter);
+    // p > 8: only the default permutation is feasible (a 4^10-entry table is rebuilt by every call)
+    c08_type::<Kmer10>(out, seed, tier, &mut counter);
     // the known-finding class of C07 (2k-p > 65535) seen through msp_sequence: k = 32772, p = 8, 65536 A's ->
     // ONE piece built from the wrapped length 0 (empty piece, bogus right extension).  The checker op carries
     // the class in its name; the model line (about 2 min of unary arithmetic) is written in the thorough tier only.
